@@ -88,7 +88,7 @@ class Table:
             ks = self.names
             a = ks.index(cols.start) if cols.start is not None else None
             b = ks.index(cols.stop) if cols.stop is not None else None
-            cols = ks[a:b]
+            cols = ks[a:b:cols.step]
         d = dict(self.vars)
         return Table([(n, d[n]) for n in cols], {n: self.blocks[n] for n in cols})
 
@@ -223,7 +223,7 @@ class MSpace:
             ks = self.names
             a = ks.index(cols.start) if cols.start is not None else None
             b = ks.index(cols.stop) if cols.stop is not None else None
-            cols = ks[a:b]
+            cols = ks[a:b:cols.step]
         return MSpace([(k, self.get(k)) for k in cols])
 
     def equal(self, other, L):
